@@ -94,8 +94,26 @@ def two_handle_history(seed, steps=16):
     if r.random() < .3:
         out.append("set_param h0 5 %d" % r.choice([1000, 77]))
     pre = r.random()
+    limited = any(l.startswith("set_param h0 5") for l in out)
+    twin = None
     if pre < .4:
         out.append(solve_cmd("h0", r.choice(SOLVERS)))
+    elif pre < .75 and not limited and lp["n"] > 0:
+        # objective limits are parameters too: a copy must stop at them exactly as the original does
+        twin = r.choice(["opt_dual", "opt_dual", "opt_primal"])
+        if r.random() < .7:
+            try:
+                import refsolve
+                sol = refsolve.solve(lp)
+            except Exception:
+                sol = None
+            if sol and sol.get("kind") == "opt":
+                v = F(sol["val"])
+                d = r.choice([F(1), F(1, 2), F(-1), F(5)])
+                if lp["max"]:
+                    out.append("set_param_q h0 9 %s" % qstr(v + d))      # QS_PARAM_OBJLLIM
+                else:
+                    out.append("set_param_q h0 8 %s" % qstr(v - d))      # QS_PARAM_OBJULIM
     out.append("dump h0")
     out.append("sol h0")
     out.append("copy h1 h0 thecopy")
@@ -103,6 +121,8 @@ def two_handle_history(seed, steps=16):
     out.append("sol h1")
     out.append("dump h0")
     out.append("sol h0")
+    if twin:
+        out += ["%s h0" % twin, "%s h1" % twin, raw(dict(call="same_outcome", h="h0", h2="h1", props=["C16"])), "sol h0", "sol h1"]
     out.append("copy_conv h0 dbl")
     out.append("copy_conv h0 mpf")
     if r.random() < .5:
